@@ -598,6 +598,16 @@ impl GlobalInferenceCtx<'_> {
                     self.replace_weak_tys(value, new_member_ty);
                 }
             }
+            Expr::Index { .. } => {
+                // the value of this expression is read out of an array or a struct, and the
+                // element / member keeps the type it was stored as (e.g. the `{uint}` elements of
+                // `.[10, 1]`). changing only the type of the read would make codegen load
+                // more bytes than the element has.
+                //
+                // the expression keeps its type and will be autocast like any other value
+                self.tys[self.loc].expr_tys.insert(expr, found_ty);
+                return false;
+            }
             _ => {}
         }
 
